@@ -129,7 +129,20 @@ func (p c04Pre) Write(b []byte) (int, error) {
 }
 func (p c04Pre) Sync() error { return p.next.Sync() }
 
-var c04SinkKinds = []string{"lock", "combine", "bws", "tee", "lock-of-lock"}
+var c04SinkKinds = []string{"lock", "combine", "bws", "tee", "lock-of-lock", "tee-fault"}
+
+// c04Flaky fails every second write (a full disk / broken pipe on one tee branch).
+type c04Flaky struct {
+	n int64
+}
+
+func (f *c04Flaky) Write(p []byte) (int, error) {
+	if atomic.AddInt64(&f.n, 1)%2 == 1 {
+		return 0, fmt.Errorf("branch broken")
+	}
+	return len(p), nil
+}
+func (f *c04Flaky) Sync() error { return nil }
 
 type c04World struct {
 	core   zapcore.Core
@@ -171,6 +184,12 @@ func c04Build(kind string, gt *Gate, seq *int64) *c04World {
 		w.core = zapcore.NewTee(c2, c1)
 		w.sync = []bool{false, true}
 		w.finish = func() { b.Stop() }
+	case "tee-fault":
+		// the first branch fails half of its writes; the healthy branch must still receive the full set
+		c1 := zapcore.NewCore(c04Enc(), zapcore.Lock(&c04Flaky{}), zapcore.DebugLevel)
+		c2 := zapcore.NewCore(c04Enc(), c04Pre{gt, zapcore.Lock(rec()), 1}, zapcore.DebugLevel)
+		w.core = zapcore.NewTee(c1, c2)
+		w.sync = []bool{true}
 	default:
 		panic("HARNESS: sink kind " + kind)
 	}
@@ -298,7 +317,7 @@ func checkC04(c *Ctx) {
 	// (ii) recorded free-running runs validated against PipelineTrace.tla
 	c04Stress(c)
 	c.Set("exhaustive", false)
-	c.Set("rule", "every distinct projection (encode / sink-write order) of the two-goroutine interleavings of Pools.tla forced on 5 sink kinds; recorded 8-goroutine runs over lock / buffered / tee / file sinks validated by TLC against PipelineTrace.tla and by the line oracle")
+	c.Set("rule", "every distinct projection (encode / sink-write order) of the two-goroutine interleavings of Pools.tla forced on 6 sink kinds; recorded 8-goroutine runs over lock / buffered / tee / file sinks validated by TLC against PipelineTrace.tla and by the line oracle")
 }
 
 // c04GateReplay forces one projected interleaving.
@@ -306,12 +325,34 @@ func c04GateReplay(sched []c04Ev, kind string) (key, what, inconclusive string) 
 	gt := NewGate()
 	defer gt.Drain()
 	w := c04Build(kind, gt, nil)
-	lg := zap.New(w.core)
+	var lgRef *zap.Logger
+	var icRef map[int]int
+	defer func() {
+		// a schedule that cannot be followed is no verdict by itself - but if the real code, left to run to the
+		// end, produced an outcome the property forbids, that outcome is reported
+		if inconclusive != "" && lgRef != nil {
+			gt.Drain()
+			for p := range icRef {
+				gt.WaitDone(fmt.Sprint(p), 1, 5*time.Second)
+			}
+			lgRef.Sync()
+			w.finish()
+			if k, wh := c04Oracle(w, icRef); k != "" {
+				key, what, inconclusive = k, wh+" (the goroutines were let run freely after the schedule could not be followed: "+inconclusive+")", ""
+			}
+		}
+	}()
+	lg := zap.New(w.core, zap.ErrorOutput(zapcore.AddSync(&bytes.Buffer{})))
 	counts := map[string]int{}
 	for _, e := range sched {
 		if e.ev == "encode" {
 			counts[e.p]++
 		}
+	}
+	lgRef = lg
+	icRef = map[int]int{}
+	for p, n := range counts {
+		icRef[int(p[0]-'0')] = n
 	}
 	pan := make(chan string, 8)
 	for p, n := range counts {
@@ -358,25 +399,34 @@ func c04GateReplay(sched []c04Ev, kind string) (key, what, inconclusive string) 
 			}
 			gt.Release(e.p)
 		case "sink":
-			// one presink per core, then the innermost sink writes it causes (none for a buffered sink that only buffers)
-			cores := 1
-			if kind == "tee" {
-				cores = 2
+			// the rest of the call: further cores of a tee encode the entry again (the gate field parks again),
+			// every gated core passes its presink gate, innermost sinks park while they are written
+			encLeft, preLeft := 0, 1
+			switch kind {
+			case "tee":
+				encLeft, preLeft = 1, 2
+			case "tee-fault":
+				encLeft, preLeft = 1, 1
 			}
-			for k := 0; k < cores; k++ {
-				if s := step(e.p, "presink"); s != "presink" {
-					return "", "", fmt.Sprintf("%s expected at presink, found %q", e.p, s)
+			for encLeft > 0 || preLeft > 0 {
+				s, _ := gt.WaitParked(e.p, 3*time.Second)
+				switch {
+				case s == "encode" && encLeft > 0:
+					encLeft--
+				case s == "presink" && preLeft > 0:
+					preLeft--
+				case s == "sink":
+				default:
+					return "", "", fmt.Sprintf("%s: unexpected gate %q inside its sink step", e.p, s)
 				}
 				gt.Release(e.p)
-				// inner sink writes until the goroutine reaches its next presink / encode or finishes
-				for {
-					s, _ := gt.WaitParked(e.p, 40*time.Millisecond)
-					if s == "sink" {
-						gt.Release(e.p)
-						continue
-					}
+			}
+			for {
+				s, _ := gt.WaitParked(e.p, 40*time.Millisecond)
+				if s != "sink" {
 					break
 				}
+				gt.Release(e.p)
 			}
 		}
 	}
